@@ -270,9 +270,12 @@ def build_driver():
 
 # ------------------------------------------------------------------------------------------ harness
 
+def repo_tag():
+    return "repo" if REPO == "/repo" else "alt-" + hashlib.sha1(REPO.encode()).hexdigest()[:10]
+
+
 def harness_dir():
-    tag = "repo" if REPO == "/repo" else "alt-" + hashlib.sha1(REPO.encode()).hexdigest()[:10]
-    return os.path.join(CACHE, "hb", tag)
+    return os.path.join(CACHE, "hb", repo_tag())
 
 
 def build_harness(release=False):
@@ -392,7 +395,7 @@ def run_harness(pid, binp, tier, seed, outdir, replay=None, extra=None):
 
 
 def write_replay(pid, tier, seed, kind, v, extra=None):
-    d = os.path.join(WORK, "replays")
+    d = os.path.join(WORK, "replays" if REPO == "/repo" else "replays-" + repo_tag())
     os.makedirs(d, exist_ok=True)
     h = hashlib.sha1((v.get("case", "") + v.get("what", "") + kind).encode()).hexdigest()[:12]
     p = os.path.join(d, f"{pid}-{h}.json")
@@ -457,7 +460,7 @@ def decide(pid, tier, seed, replay=None):
             rounds.append(("main", seed, None))
         for prof in profiles:
             for rname, rseed, rfile in rounds:
-                outdir = os.path.join(WORK, f"{pid}-{tier}-{prof}-{rname}")
+                outdir = os.path.join(WORK, f"{pid}-{tier}-{prof}-{rname}-{repo_tag()}")
                 rc, o, dt = run_harness(pid, bins[prof], tier, rseed, outdir, replay=rfile,
                                         extra=["--profile", prof] if len(profiles) > 1 else None)
                 if rc != 0:
@@ -491,7 +494,7 @@ def decide(pid, tier, seed, replay=None):
         # (4) search: correspondence broke but no concrete failing input yet -> more seeds, predicates only
         if corr_broken and not any(v["kind"] == "failing-input" for v in violations) and not replay:
             for extra_seed in range(seed + 1, seed + 1 + cfg.get("search_rounds", 3)):
-                outdir = os.path.join(WORK, f"{pid}-{tier}-search")
+                outdir = os.path.join(WORK, f"{pid}-{tier}-search-{repo_tag()}")
                 rc, o, dt = run_harness(pid, bins[profiles[0]], tier, extra_seed, outdir)
                 if rc != 0:
                     break
@@ -591,7 +594,11 @@ def decide(pid, tier, seed, replay=None):
     }
     os.makedirs(os.path.join(VERIF, "evidence"), exist_ok=True)
     if not replay:
-        json.dump(ev, open(os.path.join(VERIF, "evidence", f"{pid}.json"), "w"), indent=1)
+        # evidence/<id>.json is only ever written by runs against /repo itself; runs against another tree
+        # (VERIF_REPO=..., used for mutation testing) leave their record under work/
+        evdir = os.path.join(VERIF, "evidence") if REPO == "/repo" else os.path.join(WORK, "evidence-" + repo_tag())
+        os.makedirs(evdir, exist_ok=True)
+        json.dump(ev, open(os.path.join(evdir, f"{pid}.json"), "w"), indent=1)
     log(f"{pid} tier={tier} seed={seed}: theorems {thm['discharged']}/{thm['obligations']}, cases {evaluations}, "
         f"compared {total_cases}, violations {len(reported)}, known {len(known_hits)}, {ev['wall_s']} s")
     for v in reported[:5]:
